@@ -16,15 +16,32 @@ from . import joseops as J
 from . import refimpl as R
 from . import keys as K
 
-MODES = {"jws": ("HS256", None), "jws7797": ("HS256", None), "kw": ("A128KW", "A128GCM"), "gcmkw": ("A128GCMKW", "A128CBC-HS256"),
-         "ecdh": ("ECDH-ES", "A128GCM"), "pbes2": ("PBES2-HS256+A128KW", "A128GCM")}
+# a mode of HeaderCheck.tla is a family of algorithms sharing one table of algorithm-specific parameters; every member of the
+# family is a row of its own in the code, so the cases of a mode are spread over all of them
+FAMILY = {"jws": [(a, None) for a in R.JWS_ALGS if a != "none"], "jws7797": [(a, None) for a in R.JWS_ALGS if a != "none"],
+          "kw": [("A128KW", "A128GCM"), ("A192KW", "A192GCM"), ("A256KW", "A256GCM"), ("RSA1_5", "A128CBC-HS256"), ("RSA-OAEP", "A192CBC-HS384"),
+                 ("RSA-OAEP-256", "A256CBC-HS512"), ("dir", "A128GCM"), ("dir", "A256CBC-HS512")],
+          "gcmkw": [("A128GCMKW", "A128CBC-HS256"), ("A192GCMKW", "A128GCM"), ("A256GCMKW", "A256GCM")],
+          "ecdh": [("ECDH-ES", "A128GCM"), ("ECDH-ES+A128KW", "A128GCM"), ("ECDH-ES+A192KW", "A192GCM"), ("ECDH-ES+A256KW", "A128CBC-HS256")],
+          "pbes2": [("PBES2-HS256+A128KW", "A128GCM"), ("PBES2-HS384+A192KW", "A128GCM"), ("PBES2-HS512+A256KW", "A256GCM")],
+          "1pu": [("ECDH-1PU", "A128GCM"), ("ECDH-1PU+A128KW", "A128CBC-HS256"), ("ECDH-1PU+A192KW", "A192CBC-HS384"), ("ECDH-1PU+A256KW", "A256CBC-HS512")]}
+MODES = {m: v[0] for m, v in FAMILY.items()}
+
+
+def algs_of(case):
+    import zlib
+    fam = FAMILY[case["mode"]]
+    if case.get("rcp", "single") not in ("single", "reused_object"):
+        fam = [x for x in fam if x[0] != "dir"]           # direct encryption has one recipient
+    k = zlib.crc32(json.dumps([case.get(x) for x in ("mode", "p", "c", "pos", "ser", "crit", "rcp")]).encode())
+    return fam[k % len(fam)]
 URLP = {"jku", "x5u"}
 GENERATED = {"epk", "iv", "tag", "p2s", "p2c"}
 KEEP = object()
 
 
-def value(p: str, c: str, mode: str):
-    alg, enc = MODES[mode]
+def value(p: str, c: str, mode: str, algenc=None):
+    alg, enc = algenc or MODES[mode]
     if c == "str_ok":
         if p == "alg": return alg
         if p == "enc": return enc
@@ -63,22 +80,23 @@ def make_registry(case):
 def _make_registry(case, shared=False):
     from joserfc.registry import HeaderParameter
     mode = case["mode"]
-    alg, enc = MODES[mode]
+    alg, enc = algs_of(case)
     hr = None
     if case["custom"] == "cty_int":
         hr = {"cty": HeaderParameter("Content Type (numeric here)", "int", False)}      # the caller's entry replaces the standard one
     elif case["custom"] != "none":
         hr = {"custom": HeaderParameter("Custom", "int", case["custom"] == "req")}
+    jnames = [a for a, _ in FAMILY["jws"]] if shared else [alg]
     if mode == "jws":
         from joserfc.jws import JWSRegistry
-        return JWSRegistry(header_registry=hr, algorithms=[alg], strict_check_header=case["strict"])
+        return JWSRegistry(header_registry=hr, algorithms=jnames, strict_check_header=case["strict"])
     if mode == "jws7797":
         from joserfc.rfc7797 import JWSRegistry as R7797
-        return R7797(header_registry=hr, algorithms=[alg], strict_check_header=case["strict"])
+        return R7797(header_registry=hr, algorithms=jnames, strict_check_header=case["strict"])
     from joserfc.jwe import JWERegistry
     names = [alg, enc, "DEF"]
     if shared:
-        names = sorted({x for a, e in MODES.values() if e for x in (a, e)} | {"DEF"})
+        names = sorted({x for v in FAMILY.values() for a, e in v if e for x in (a, e)} | {"DEF"})
     return JWERegistry(header_registry=hr, algorithms=names, strict_check_header=case["strict"],
                        verify_all_recipients=not case.get("rcp", "single").endswith("_any"))
 
@@ -99,21 +117,23 @@ def place(case, prot: dict, unprot: dict, rec: dict, consume_generated: bool):
     else:
         for d in (prot, unprot, rec):
             d.pop(p, None)
-        tgt[p] = value(p, c, case["mode"])
+        tgt[p] = value(p, c, case["mode"], algs_of(case))
     if p != "crit" and case["crit"] != "absent":
         prot["crit"] = crit_value(case["crit"], p)
 
 
 def run_case(case) -> str:
     mode, op, ser = case["mode"], case["op"], case["ser"]
-    alg, enc = MODES[mode]
+    alg, enc = algs_of(case)
     # the process is one in which the draft algorithms have been imported (an application that speaks ECDH-1PU as well):
     # what another algorithm registers for itself is none of this algorithm's business
     import joserfc.drafts.jwe_ecdh_1pu, joserfc.drafts.jwe_chacha20  # noqa
+    if mode == "1pu":
+        J.register_drafts({"1pu"})
     try:
         reg = make_registry(case)
         if mode in ("jws", "jws7797"):
-            jwk = K.get("oct256")
+            jwk = K.get(K.JWS_KEY_KIND[alg])
             prot, unprot, rec = {"alg": alg}, {}, {}
             place(case, prot, unprot, rec, False)
             b64 = prot.get("b64", unprot.get("b64", True)) is not False
@@ -143,6 +163,9 @@ def run_case(case) -> str:
             return "ok" if got == payload else "fail:content"
         # ---- JWE
         jwk = K.get(K.jwe_key_kind(alg, enc))
+        sj = K.get(K.jwe_key_kind(alg, enc), 1) if mode == "1pu" else None
+        skw = {"sender_key": J.jkey(sj)} if sj else {}
+        dkw = {"sender_key": J.jkey(J.pub(sj))} if sj else {}
         pt = b"plaintext \x00\xff"
         prot = {"alg": alg, "enc": enc}
         if mode == "pbes2":
@@ -153,7 +176,7 @@ def run_case(case) -> str:
             place(case, prot, unprot, rec, False)
             key = J.jkey(J.pub(jwk))
             if ser == "compact":
-                out = jwe.encrypt_compact(prot, pt, key, registry=reg)
+                out = jwe.encrypt_compact(prot, pt, key, registry=reg, **skw)
             elif case.get("rcp") == "reused_object":
                 # first encryption with a good header (every position present), then the caller edits the object's public header
                 # dictionaries in place to this case's header and encrypts again
@@ -161,18 +184,18 @@ def run_case(case) -> str:
                 good = {"alg": alg, "enc": enc, **({"p2c": 8} if mode == "pbes2" else {})}
                 obj = cls(dict(good), pt, {"cty": "first"})
                 obj.add_recipient({"kid": "first"}, key)
-                first = jwe.encrypt_json(obj, None, registry=_make_registry({**case, "strict": True, "custom": "none"}))
+                first = jwe.encrypt_json(obj, None, registry=_make_registry({**case, "strict": True, "custom": "none"}), **skw)
                 if not first:
                     return "machinery:first encryption failed"
                 for d, new in ((obj.protected, prot), (obj.unprotected, unprot), (obj.recipients[0].header, rec)):
                     d.clear()
                     d.update(new)
-                out = jwe.encrypt_json(obj, None, registry=reg)
+                out = jwe.encrypt_json(obj, None, registry=reg, **skw)
             else:
                 cls = jwe.FlattenedJSONEncryption if ser == "flattened" else jwe.GeneralJSONEncryption
                 obj = cls(prot, pt, unprot or None)
                 obj.add_recipient(rec or None, key)
-                out = jwe.encrypt_json(obj, None, registry=reg)
+                out = jwe.encrypt_json(obj, None, registry=reg, **skw)
             return "ok" if out else "fail:empty"
 
         rcp = case.get("rcp", "single")
@@ -186,10 +209,10 @@ def run_case(case) -> str:
                     if n not in p_:
                         rs_[1 - k][n] = v
         # two recipients: both usable with the caller's key, algorithm-generated members in the per-recipient headers
-        parts = R.jwe_encrypt(prot, pt, [{"jwk": jwk, "where": "protected"}] if rcp == "single" else [{"jwk": jwk}, {"jwk": jwk}], mutate=mutate)
+        parts = R.jwe_encrypt(prot, pt, [{"jwk": jwk, "where": "protected", "sender": sj}] if rcp == "single" else [{"jwk": jwk, "sender": sj}, {"jwk": jwk, "sender": sj}], mutate=mutate)
         tok = R.jwe_compact(parts) if ser == "compact" else R.jwe_json(parts, flattened=(ser == "flattened"))
         from joserfc import jwe
-        got = (jwe.decrypt_compact(tok, J.jkey(jwk), registry=reg) if ser == "compact" else jwe.decrypt_json(tok, J.jkey(jwk), registry=reg)).plaintext
+        got = (jwe.decrypt_compact(tok, J.jkey(jwk), registry=reg, **dkw) if ser == "compact" else jwe.decrypt_json(tok, J.jkey(jwk), registry=reg, **dkw)).plaintext
         return "ok" if got == pt else "fail:content"
     except BaseException as e:  # noqa
         if isinstance(e, (KeyboardInterrupt, SystemExit)):
